@@ -129,8 +129,10 @@ def _drop_cfg_test(text, counts):
                 if k2 < n and text[k2] == ';':
                     j = k2 + 1
                 break
-            if c == ';':
+            if c == ';' or c == ',':
                 j += 1
+                break
+            if c == '}':
                 break
             j += 1
         text = text[:m.start()] + text[j:]
@@ -645,7 +647,7 @@ def build_unit(template, repo, variant='A'):
             outname = kw.get('as', name)
             if kw.get('assumed') and variant in kw['assumed'].split(','):
                 is_assumed = True
-            spec = {'ret': None, 'spec_lines': [], 'loops': {}, 'entry': [], 'anchors': [], 'closures': {}}
+            spec = {'ret': None, 'spec_lines': [], 'loops': {}, 'entry': [], 'anchors': [], 'closures': {}, 'attrs': []}
             section = None
             i += 1
             start_tno = tno
@@ -669,6 +671,9 @@ def build_unit(template, repo, variant='A'):
                         lines = []
                         spec['loops'][int(p2[0])] = (k2.get('iter'), lines)
                         section = lines
+                    elif d2 == 'attr':
+                        spec['attrs'].append(rest2.strip())
+                        section = None
                     elif d2 == 'closure':
                         lines = []
                         spec['closures'][int(p2[0])] = lines
@@ -722,6 +727,10 @@ def build_unit(template, repo, variant='A'):
             elif not kw.get('nospinoff'):
                 b.lines.append('#[verifier::spinoff_prover]')
                 b.origin.append({'k': 'ghost', 'f': rel, 'fn': outname, 'tl': start_tno})
+            if not is_assumed:
+                for at in spec['attrs']:
+                    b.lines.append(at)
+                    b.origin.append({'k': 'ghost', 'f': rel, 'fn': outname, 'tl': start_tno})
             for t, g in spliced:
                 b.lines.append(t)
                 b.origin.append({'k': 'ghost' if g else 'src', 'f': rel, 'fn': outname, 'tl': start_tno})
